@@ -31,11 +31,18 @@ impl Stage {
     }
 }
 
+/// Case counts are fixed work, not time quotas. `base` is the number of cases that takes
+/// roughly half a second on 16 cores; the quick tier runs 20x that, the thorough tier a
+/// further 16x (a zero `thorough` / `quick` marker disables the stage for that tier).
+const QUICK_SCALE: u64 = 20;
+const THOROUGH_SCALE: u64 = 16;
+
 fn st(prop: impl Property + 'static, quick: u64, thorough: u64, profile: Profile) -> Stage {
+    let base = if quick > 0 { quick } else { thorough / 20 };
     Stage {
         prop: Box::new(prop),
-        quick_cases: quick,
-        thorough_cases: thorough,
+        quick_cases: if quick > 0 { base * QUICK_SCALE } else { 0 },
+        thorough_cases: if thorough > 0 { base * QUICK_SCALE * THOROUGH_SCALE } else { 0 },
         profile,
     }
 }
@@ -84,7 +91,7 @@ pub fn stages(id: &str) -> Vec<Stage> {
         ],
         "C10" => vec![
             st(C10 { params: Params::conflict_heavy().with_soft(2, 100), stage: "sampled", exhaustive: false, max_schedules: 0 }, 4_000, 150_000, Release),
-            st(C10 { params: Params { min_pkgs: 2, max_pkgs: 4, max_cands: 3, max_reqs: 2, min_root_reqs: 1, max_root_reqs: 2, ..Params::conflict_heavy() }, stage: "exhaustive", exhaustive: true, max_schedules: 3000 }, 300, 10_000, Release),
+            st(C10 { params: Params { min_pkgs: 2, max_pkgs: 4, max_cands: 3, max_reqs: 2, min_root_reqs: 1, max_root_reqs: 2, ..Params::conflict_heavy() }, stage: "exhaustive", exhaustive: true, max_schedules: 3000 }, 90, 3_000, Release),
         ],
         "C11" => vec![
             st(C11 { params: Params::fanout(), stage: "main" }, 15_000, 500_000, Release),
